@@ -216,6 +216,50 @@ func genTLSTokens(repo string) (string, error) {
 		ok = false
 	}
 	fmt.Fprintf(&b, "Definition tls_manager_cached : bool := %v.\n", cached)
+	// secret_manager.go sdsProvider.update(): once newTLSContext has succeeded the fresh context is installed
+	// (p.value.Store) - no statement in between can return and keep the old one
+	always := false
+	if _, sf, err := ParseGoFile(repo, "pkg/mtls/secret_manager.go"); err == nil {
+		if fd := FindFunc(sf, "sdsProvider", "update"); fd != nil {
+			built, stored, escaped := -1, -1, false
+			for i, st := range fd.Body.List {
+				if as, isa := st.(*ast.AssignStmt); isa && len(as.Rhs) == 1 {
+					if c, isc := as.Rhs[0].(*ast.CallExpr); isc && exprString(c.Fun) == "newTLSContext" {
+						built = i
+					}
+				}
+				if es, ise := st.(*ast.ExprStmt); ise {
+					if c, isc := es.X.(*ast.CallExpr); isc && exprString(c.Fun) == "p.value.Store" && built >= 0 && stored < 0 {
+						stored = i
+					}
+				}
+			}
+			if built >= 0 && stored > built {
+				for i := built + 1; i < stored; i++ {
+					// the error check directly after the build may return; anything else that can return keeps the old context
+					if is, isi := fd.Body.List[i].(*ast.IfStmt); isi && i == built+1 {
+						if be, isb := is.Cond.(*ast.BinaryExpr); isb && exprString(be.X) == "err" {
+							continue
+						}
+					}
+					ast.Inspect(fd.Body.List[i], func(n ast.Node) bool {
+						if _, isr := n.(*ast.ReturnStmt); isr {
+							escaped = true
+						}
+						return true
+					})
+				}
+				always = !escaped
+			} else {
+				ok = false
+			}
+		} else {
+			ok = false
+		}
+	} else {
+		ok = false
+	}
+	fmt.Fprintf(&b, "Definition sds_update_always_installs : bool := %v.\n", always)
 	fmt.Fprintf(&b, "Definition TLSTokens_translator_ok := %v.\n", ok)
 	return b.String(), nil
 }
